@@ -108,6 +108,7 @@ type gen struct {
 	streamNS string
 	s2s      bool
 	s        *xmpp.Session
+	reuse    *reuseState
 }
 
 var kinds = []string{"message", "presence", "iq"}
@@ -266,6 +267,36 @@ func (g *gen) structFor(local, ns, typ, marker, id string) (structV, *xmltree.No
 	return v, t
 }
 
+// reuseState is a start element that its owner passes to several consecutive
+// SendElement calls.
+type reuseState struct {
+	spec  *elem // what the owner put into it
+	start xml.StartElement
+	left  int
+}
+
+func (g *gen) reusedStart(rec *opRec, marker string) (*opRec, func(ctx context.Context) error) {
+	ru := g.reuse
+	ru.left--
+	if ru.left <= 0 {
+		g.reuse = nil
+	}
+	mk := &elem{Name: xml.Name{Space: nsTop, Local: "mk"}, Attrs: []xml.Attr{attr(markAtt, marker)}, Kids: genKids(g.r, g.streamNS, 2)}
+	for _, a := range ru.spec.Attrs {
+		if a.Name.Space == "" && a.Name.Local == "xmlns" {
+			// keep clear of token streams that have no single reading (see
+			// emptyUnderForeign)
+			mk.Kids = []any{"text " + marker}
+		}
+	}
+	e := &elem{Name: ru.spec.Name, Attrs: ru.spec.Attrs, Kids: []any{mk}}
+	rec.Entry, rec.Form, rec.stanza, rec.startGiven = "SendElement", "tokens+reused-start", true, true
+	rec.want, rec.Size = e.node(""), sizeClass(e)
+	start := ru.start // the same value (and attribute slice) every time
+	s := g.s
+	return rec, func(ctx context.Context) error { return s.SendElement(ctx, reader(e.inner()), start) }
+}
+
 // next generates one operation: its record (with the expected tree) and the
 // function that performs it.
 func (g *gen) next(actor, n int) (*opRec, func(ctx context.Context) error) {
@@ -273,7 +304,10 @@ func (g *gen) next(actor, n int) (*opRec, func(ctx context.Context) error) {
 	marker := fmt.Sprintf("a%d-%d", actor, n)
 	rec := &opRec{Actor: actor, N: n, Marker: marker}
 	s := g.s
-	switch r.Intn(24) {
+	if g.reuse != nil {
+		return g.reusedStart(rec, marker)
+	}
+	switch r.Intn(25) {
 	case 0, 1: // Send
 		rec.Entry = "Send"
 		var e *elem
@@ -377,6 +411,35 @@ func (g *gen) next(actor, n int) (*opRec, func(ctx context.Context) error) {
 		}
 		rec.want = t
 		return rec, func(ctx context.Context) error { return s.EncodeElement(ctx, inner, start.Copy()) }
+	case 24: // the same start element value passed to several calls in a row
+		kind := kinds[r.Intn(3)]
+		st := &elem{Name: xml.Name{Local: kind}}
+		if r.Intn(2) == 0 {
+			st.Name.Space = g.streamNS
+		}
+		pool := []xml.Attr{attr("type", typeFor(r, kind, false))}
+		if r.Intn(10) < 7 {
+			pool = append(pool, attr("id", ""))
+		}
+		if r.Intn(10) < 6 {
+			pool = append(pool, attr("from", ""))
+		}
+		if r.Intn(10) < 7 {
+			pool = append(pool, attr("to", "romeo@example.org/r"))
+		}
+		if r.Intn(10) < 3 {
+			pool = append(pool, xml.Attr{Name: xml.Name{Space: nsXML, Local: "lang"}, Value: "en"})
+		}
+		if st.Name.Space != "" && r.Intn(10) < 4 {
+			pool = append(pool, attr("xmlns", st.Name.Space))
+		}
+		r.Shuffle(len(pool), func(i, j int) { pool[i], pool[j] = pool[j], pool[i] })
+		st.Attrs = pool
+		// the caller keeps one start element (one attribute slice) and sends it
+		// again and again with different payloads
+		start := xml.StartElement{Name: st.Name, Attr: append(make([]xml.Attr, 0, len(pool)+r.Intn(3)), pool...)}
+		g.reuse = &reuseState{spec: st, start: start, left: 2 + r.Intn(2)}
+		return g.reusedStart(rec, marker)
 	case 22: // a call with an invalid argument: it must fail, write nothing, and leave the session usable
 		rec.Entry, rec.invalid = "Invalid", true
 		switch r.Intn(6) {
